@@ -423,7 +423,7 @@ def finish(pid, tier, seed, merged, rule, assumptions, extra_cov=None, required=
     for v in new_violations[:40]:
         path = write_replay(pid, v)
         sh = v.get("shrunk") or v.get("case") or {}
-        log("violation (%s): %s | pattern=%r flags=%r haystack=%r start=%r | observed: %s | expected: %s" % (v.get("detail_property"), v.get("what"), sh.get("pattern"), sh.get("flags"), sh.get("haystack"), sh.get("start"), str(sh.get("observed", v.get("observed")))[:300], str(sh.get("expected", v.get("expected")))[:300]))
+        log("violation (%s): %s | pattern=%r flags=%r haystack=%r start=%r | observed: %s | expected: %s" % (v.get("detail_property"), sh.get("what", v.get("what")), sh.get("pattern"), sh.get("flags"), sh.get("haystack"), sh.get("start"), str(sh.get("observed", v.get("observed")))[:300], str(sh.get("expected", v.get("expected")))[:300]))
         print("VIOLATION property=%s replay=%s" % (pid, path))
         rc = 1
     c = merged.counters
@@ -640,12 +640,12 @@ def check_c19(tier, seed, replay=None):
         raise
     if replay:
         return do_replay(pid, "dbg", "c19", replay)
-    merged = run_shards("dbg", "c19", tier, seed, timeout=3600, nshards=10, crash_property="C19")
+    merged = run_shards("dbg", "c19", tier, seed, timeout=3600, nshards=15, crash_property="C19")
     tools = [tool_summary("native threads (2/4/16 per group) with hook-injected yields", merged)]
     try:
         miri_prepare()
         nseeds = 4 if tier == "quick" else 16
-        mi = run_miri("c19", tier, seed, {"small": 1, "queries": 6}, nprocs=10, timeout=2400 if tier == "quick" else 14000, miriflags="-Zmiri-many-seeds=0..%d" % nseeds, crash_property="C19")
+        mi = run_miri("c19", tier, seed, {"small": 1, "queries": 6}, nprocs=15, timeout=2400 if tier == "quick" else 14000, miriflags="-Zmiri-many-seeds=0..%d" % nseeds, crash_property="C19")
         ts = tool_summary("Miri data-race detector + weak-memory emulation, %d scheduler seeds per pattern" % nseeds, mi)
         ts["miri_seeds"] = nseeds
         tools.append(ts)
@@ -660,14 +660,14 @@ def check_c19(tier, seed, replay=None):
             tsan_env = {"TSAN_OPTIONS": "halt_on_error=1:exitcode=66"}
             reps = 0
             for r in range(6):
-                t = run_shards("tsan", "c19", tier, seed + r, mem_gb=None, env=tsan_env, timeout=3600, nshards=10, crash_property="C19", opts={"queries": 400})
+                t = run_shards("tsan", "c19", tier, seed + r, mem_gb=None, env=tsan_env, timeout=3600, nshards=15, crash_property="C19", opts={"queries": 400})
                 merged.merge(t)
                 reps += 1
             tools.append(dict(tool="ThreadSanitizer (-Zsanitizer=thread -Zbuild-std)", repetitions=reps, reports=len([c for c in merged.crashes if c.get("returncode") == 66])))
         except HarnessError as e:
             merged.notes.append("TSan stage unavailable: %s" % str(e)[:300])
             tools.append(dict(tool="ThreadSanitizer", unavailable=str(e)[:300]))
-    rule = ("static: the harness contains assert_send_sync::<Regex/Match/Error/Flags>() (a failing build is reported as a violation). Dynamic: 10 patterns x a multiset of queries (haystack, start, entry point, early iterator drop); the sequential specification is each query alone on a freshly compiled Regex; then (a) all queries in shuffled order on one Regex in one thread, (b) groups of 2, 4 and 16 threads sharing one Arc<Regex> plus per-thread clones, running shuffled overlapping subsets, including two live iterators advanced alternately, with the hook calling yield_now() every 1/3/7/50 engine steps; every result digest must equal the sequential one."
+    rule = ("static: the harness contains assert_send_sync::<Regex/Match/Error/Flags>() (a failing build is reported as a violation). Dynamic: 15 patterns x a multiset of queries (haystack, start, entry point, early iterator drop); the sequential specification is each query alone on a freshly compiled Regex; then (a) all queries in shuffled order on one Regex in one thread, (b) groups of 2, 4 and 16 threads sharing one Arc<Regex> plus per-thread clones, running shuffled overlapping subsets, including two live iterators advanced alternately, with the hook calling yield_now() every 1/3/7/50 engine steps; every result digest must equal the sequential one."
             " The same workload (small) runs under Miri with several scheduler seeds and, in the thorough tier, under ThreadSanitizer. A case is one (pattern, query, thread group, thread); all are non-trivial.")
     extra = dict(tools=tools, concurrent_queries=merged.c("concurrent_queries"), thread_groups=group_counters(merged.counters, "thread_groups."), thread_runs_with_injected_yields=merged.c("thread_runs_with_injected_yields"), static_send_sync_assertions=True)
     return finish(pid, tier, seed, merged, rule, ASSUME_COMMON + ["holds by construction today (no interior mutability in CompiledRegex); this is a tripwire for a cache or scratch buffer added to the shared program"], extra_cov=extra, required=["concurrent_queries", "thread_groups.16", "static_send_sync_assertions"], t0=t0)
